@@ -459,6 +459,8 @@ def run_property(mod, prop_id, tier, seed, replay=None):
     classes = getattr(mod, 'FINDING_CLASSES', {})
     try:
         import_repo()
+        if hasattr(mod, 'pre_build'):
+            mod.pre_build(ctx)
         ok, out = lean_build(ctx.log)
         audit = dict(obligations=0, discharged=0, problems=[], theorems=[])
         if not ok:
@@ -513,7 +515,8 @@ def run_property(mod, prop_id, tier, seed, replay=None):
         f = unlisted[0]
         path = write_replay(prop_id, f, dict(seed=seed, tier=tier, other_failing_cases=len(unlisted) - 1,
                                              related=[o.to_json() for o in other[:3]]))
-        print(f'VIOLATION property={prop_id} replay={path}')
+        noinput = isinstance(f.case, dict) and f.case.get('exhibited') is False
+        print(f'VIOLATION property={prop_id} replay={path}' + (' no-failing-input-found' if noinput else ''))
         print(f'  clause={f.clause} site={f.site} detail={json.dumps(f.detail, default=str)[:400]}')
         rc, nviol = 1, len(unlisted)
     elif other and not known_hit:
